@@ -8,50 +8,50 @@ def prop(pid, text, note, technique, design):
 NOT_BUILT = {}
 
 prop("C08",
- "Structural necessary conditions of the error discipline, decided exactly on the SSA of the current source: every write to the output writer is error-checked and a failed write ends the stream function with a non-nil error before any further write; scanner/gzip/open errors are returned; wrappers propagate; every CLI call site maps a non-nil error to a non-zero exit on all paths; record and newline are one write. Level 'other' because the fault behaviour of the OS and of the library (short writes, ENOSPC) is not decided - only that no error the code receives can be dropped.",
+ "Structural necessary conditions of the error discipline, decided exactly on the SSA of the current source: every write to the output writer is error-checked and a failed write ends the stream function with a non-nil error before any further write; scanner/gzip/open errors are returned; wrappers propagate; every CLI call site maps a non-nil error to a non-zero exit on all paths; record and newline are one write; the writer handed to the funnel is an *os.File or a buffering writer whose Flush error is checked on every path to the end of the command; and a line cut short by a failing read cannot be completed and emitted (every token read of the parser is error-checked, the entry point rejects trailing data). Level 'other' because the fault behaviour of the OS and of the library (short writes, ENOSPC) is not decided - only that no error the code receives can be dropped.",
  "Trusted: go/ssa, library contract 'short write => non-nil error', bufio.Scanner.Err semantics. Not decided: byte-exactness of the already written prefix, Close errors.",
  "SSA path queries (must-reach non-nil error return / non-zero exit from each err!=nil edge), resolved callees",
  "DESIGN.md section 3, C08")
 
 prop("C09",
- "Sibling agreement between encrypting and decrypting side plus fail-closed handling of the decrypt command, decided on SSA: same primitive chain from the key parameter, identical (nil) associated data, the same base64 encoding object on both sides with only string/[]byte conversions around plaintext and ciphertext, one encoding for key writer/reader, plaintext print dominated by err==nil of all three steps. Level 'other': the cryptographic round trip itself is Tink's and is not decided.",
+ "Sibling agreement between encrypting and decrypting side plus fail-closed handling of the decrypt command, decided on SSA: same primitive chain from the key parameter, identical (nil) associated data, both siblings reach the primitive under error tests of the set-up calls only (no data-dependent guard on one side) with the data parameter as received; every return of the string choke point is its placeholder or the base64 text of the ciphertext just computed from its own parameter; the plaintext handed to the choke point at every call site is the input leaf itself; the same base64 encoding object on both sides; the decrypted bytes are converted, labelled with a constant and printed - nothing else touches them; one encoding for key writer/reader; plaintext print dominated by err==nil of all three steps. Level 'other': the cryptographic round trip itself is Tink's and is not decided.",
  "Trusted: Tink AES-SIV (daead), encoding/base64. Not decided: authenticity, arbitrary Unicode content, JSON escaping of the ciphertext text.",
  "SSA def-use chains of the crypto calls, operand identity across the two siblings, guard facts at the print", "DESIGN.md section 3, C09")
 prop("C10",
- "Fail-closed and single-choke-point structure of encrypt mode, decided on SSA: taint from the plaintext parameter never reaches a return of the string choke point; Encrypt has one call site; every string leaf the scalar step replaces goes through it; no time/randomness/environment source is reachable from Encrypt in the package; the key global is written only by its setter from the redact command; encrypt mode implies an installed generated/validated key before any processing call on every path. Level 'other': determinism/injectivity of AES-SIV is the primitive's contract.",
+ "Fail-closed and single-choke-point structure of encrypt mode, decided on SSA: taint from the plaintext parameter never reaches a return of the string choke point and every return is the placeholder or the fresh ciphertext encoding; Encrypt has one call site; every string leaf the scalar step replaces goes through it; no time/randomness/environment source is reachable from Encrypt in the package (thorough tier: in the whole program through third-party code); the keyset around the raw key is a function of the key alone (constant key ids, RAW output prefix, key material = parameter); the key global is written only by its setter from the redact command; encrypt mode implies an installed generated/validated key before any processing call on every path; the key functions propagate every failure and the key reader validates the whole file content; the --encrypt switch is evaluated before every record-producing call and depends only on its two flags. Level 'other': determinism/injectivity of AES-SIV is the primitive's contract.",
  "Trusted: Tink determinism. Not decided: equality of ciphertexts across runs as observed bytes.",
  "intra-package taint analysis, call-site enumeration, CFG must-pass-through from SetShouldEncrypt to processing calls", "DESIGN.md section 3, C10")
 prop("C11",
- "Ordering and who-may-write for the key path, decided on SSA with a taint from the --encryptionKeyFile flag: only the key writer mutates that path, only under existence-test==false; the existence test answers false only for not-exist/directory; written bytes = fresh 64-byte crypto/rand key = installed key; reader validates read/base64/len==64 before success; mode has no group/other bits; every key error exits non-zero; no key operation after a processing call. Level 'other': file-system semantics are not decided.",
+ "Ordering and who-may-write for the key path, decided on SSA with a taint from the --encryptionKeyFile flag: only the key writer mutates that path, only under existence-test==false, and test, write and load use the same path expression; the existence test answers false only for not-exist/directory; written bytes = fresh 64-byte crypto/rand key = installed key; the reader's success return is DecodeString of the whole file content, validated for read/base64/len==64, and nothing in the reader overwrites a buffer; mode has no group/other bits; the three key functions propagate every failing call; every key error exits non-zero; no key operation after a processing call. Level 'other': file-system semantics are not decided.",
  "Trusted: os.Stat/os.WriteFile semantics, crypto/rand. Not decided: umask, odd file types, sequences beyond the per-run invariant.",
  "taint of the key path, guard facts at writer call sites, constant evaluation of mode/length, path queries for error exits", "DESIGN.md section 3, C11")
 prop("C13",
- "Purity and shape of the pseudonym function, decided on SSA: reads only the replacement text, side table write-only package-wide, no nondeterministic source; pipeline trim '$' -> split '.' -> per-component SHA-256 -> [0:8] -> '%s_%x' -> join '.', one output per component in order; single hashing site. Level 'other': collision-freeness of truncated SHA-256 is probabilistic and not decided.",
+ "Purity and shape of the pseudonym function, decided on SSA: reads only the replacement text, side table write-only package-wide, no nondeterministic source; pipeline trim '$' -> split '.' -> per-component SHA-256 -> [0:8] -> '%s_%x' -> join '.', one output per component in order; single hashing site. Pseudonyms are used verbatim at every live call site (never as a regexp replacement template, never case-folded or trimmed). Level 'other': collision-freeness of truncated SHA-256 is probabilistic and not decided.",
  "Trusted: crypto/sha256, fmt %x rendering, strings.Split/Join.",
  "SSA shape matching of the pipeline stages with constant evaluation; package-wide use scan of the side table", "DESIGN.md section 3, C13")
 prop("C16",
- "Wiring of Atlas mode, decided by role-taint over SSA and format-string parsing: start/end flags reach exactly the startDate=/endDate= operands through setters, globals, window function, download and per-host call; project/host/cluster reach their path segments; default window (now-604800, now); one per-host call per host in order, one client.Do per function, no loop around it; BaseURL-prefixed URLs with an https cloud.mongodb.com constant; temp file written only by io.Copy from the response body; output <outputFile>.<i> paired with file i. Level 'other': HTTP exchanges are not observed.",
+ "Wiring of Atlas mode, decided by role-taint over SSA and format-string parsing: start/end flags reach exactly the startDate=/endDate= operands through setters, globals, window function, download and per-host call; project/host/cluster reach their path segments; default window (now-604800, now); one per-host call per host in order, one client.Do per function, no loop around it; BaseURL-prefixed URLs with an https cloud.mongodb.com constant; temp file written only by io.Copy from the response body; output <outputFile>.<i> paired with file i. The --encrypt switch is honoured on the Atlas channel and a gzip payload is streamed member after member (reader never reconfigured). Level 'other': HTTP exchanges are not observed.",
  "Trusted: net/http, digest transport round trips, connstring parsing. Not decided: SRV resolution, gzip payloads, challenge rounds.",
  "inter-procedural role taint (per result index), constant format parsing, loop-shape recognition", "DESIGN.md section 3, C16")
 prop("C17",
- "Acquire/release pairing of downloaded temp files on every CFG exit, with defer modelled (runs on return/panic, not on os.Exit): partial file removed on error after CreateTemp; host-loop error returns delete earlier files; after a successful download every return is covered by a registered deferred delete and every os.Exit by a direct delete; delete helper removes all elements; no other file creation on the download path. Level 'other': signals and library panics are outside.",
+ "Acquire/release pairing of downloaded temp files on every CFG exit, with defer modelled (runs on return/panic, not on os.Exit): partial file removed on error after CreateTemp; host-loop error returns delete earlier files; after a successful download every return is covered by a registered deferred delete and every os.Exit - also one inside a called function or nested closure - by a direct delete, and the deleted list is the whole download result (never a sub-slice); delete helper removes all elements; no other file creation on the download path (thorough tier: in the whole program). Level 'other': signals and library panics are outside.",
  "Trusted: os.Remove/os.CreateTemp semantics, Go defer semantics.",
  "CFG must-pass-through queries with defer/os.Exit modelling, loop-shape recognition", "DESIGN.md section 3, C17")
 prop("C20",
- "Explicit-flow confinement of the Atlas private key, decided by inter-procedural taint over SSA seeded at the flag variable and os.Getenv(\"ATLAS_PRIVATE_KEY\"): allowed uses are comparison with \"\", local copies, passing to package functions, and the store into digest.Transport.Password; the transport object is used only as http.Client.Transport; no Authorization header / SetBasicAuth in the package. Level 'other': the digest library's behaviour on the wire is read from its source, not observed.",
+ "Explicit-flow confinement of the Atlas private key, decided by inter-procedural taint over SSA seeded at the flag variable and os.Getenv(\"ATLAS_PRIVATE_KEY\"): allowed uses are comparison with \"\", local copies, passing to package functions, and the store into digest.Transport.Password; the transport object is used only as http.Client.Transport; no Authorization header / SetBasicAuth in the package. Reads of os.Args (beyond the program name) count as sources of the secret; thorough tier: no environment writer or logger is reachable from the Atlas client through third-party code. Level 'other': the digest library's behaviour on the wire is read from its source, not observed.",
  "Trusted: mongodb-forks/digest (sends credentials only in response to a 401 challenge), net/http.",
  "inter-procedural taint with an allow-list of use kinds; who-may-use scan of the credential-holding struct", "DESIGN.md section 3, C20")
 
 prop("C01",
- "Structural necessary conditions of full redaction, decided exactly on SSA + reconstructed tables: the line gate and the dispatch of the three command documents and of every zone key; every store into an output container and every walker return classified as sanitised or as a raw pass-through justified by one of ten enumerated guard classes (guards from dominating branch edges, short-circuit phis and disjunctive joins); in-place loops cover the whole container; Exempt/FieldName/Namespace table positions confined to a reviewed allow-list (tables reconstructed by abstract interpretation of the initialisers, 367 Set calls); flag->setter->global wiring; constant remote placeholder. Level 'other': whether the table lookup routes every grammar position to the intended entry is value-level and not decided.",
+ "Structural necessary conditions of full redaction, decided exactly on SSA + reconstructed tables: the line gate and the dispatch of the three command documents and of every zone key; every store into an output container and every walker return classified as sanitised or as a raw pass-through justified by one of ten enumerated guard classes (guards from dominating branch edges, short-circuit phis and disjunctive joins); in-place loops cover the whole container; Exempt/FieldName/Namespace table positions confined to a reviewed allow-list (tables reconstructed by abstract interpretation of the initialisers, 367 Set calls); flag->setter->global wiring; constant remote placeholder. Zone keys are checked per JSON form the command grammar allows (update/u as document and as pipeline array, deletes, documents, pipeline); an early return of the in-place array walker before its loop is a raw pass-through without justification. Level 'other': whether the table lookup routes every grammar position to the intended entry is value-level and not decided.",
  "Trusted: go/ssa; orderedmap semantics; the reviewed allow-list rules/table_policy.json; HashName/Encrypt results are not the plaintext. Not decided: grammar coverage of the tables, JSON escaping.",
  "provenance dataflow + control-dependence guard atoms over SSA (sink analysis), abstract interpretation of table initialisers, per-iteration store counting, flag wiring flow", "DESIGN.md section 3, C01")
 prop("C03",
- "Container typestate, leaf-kind preservation and parser/serialiser agreement, decided on SSA: exactly one store per iteration into the associated fresh map/slice at the current key/index (bounded path enumeration per loop body), output length = input length, scalar-step returns keep the JSON class for every kind the parser produces and call sites pass (class-set refinement by guard atoms), json.Marshal only receives provable non-containers, only structural constants or marshalled bytes are written, brackets closed on every success path, the scan loop writes exactly the serialiser's result. Level 'other': encoding/json's rendering is trusted.",
+ "Container typestate, leaf-kind preservation and parser/serialiser agreement, decided on SSA: exactly one store per iteration into the associated fresh map/slice at the current key/index (bounded path enumeration per loop body), output length = input length, scalar-step returns keep the JSON class for every kind the parser produces and call sites pass (class-set refinement by guard atoms), json.Marshal only receives provable non-containers, only structural constants or marshalled bytes are written, brackets closed on every success path, the scan loop writes exactly the serialiser's result. The serialiser's buffer is written only through its own write methods and the serialiser's functions (who-may-write). Level 'other': encoding/json's rendering is trusted.",
  "Trusted: encoding/json (Token kinds, Marshal of scalars), orderedmap iteration order. Not decided: duplicate sibling keys, escaping.",
  "typestate dataflow over loop bodies, JSON-class abstract domain over guard atoms, who-may-write scan of the serialiser", "DESIGN.md section 3, C03")
 prop("C07",
- "Discharge of every potentially panicking instruction on the per-line path by a local guard, decided on SSA: unchecked type assertions need a dominating comma-ok success on the same value/type (one listed exception), index/slice bounds need the range-loop index, a dominating len comparison (linear reasoning on len(x)+c) or an inter-procedural non-emptiness summary of key-path parameters, no division/panic/MustCompile of non-constants, no exit from inside the scan loop except returning a non-nil error, default split function. Level 'other': panics inside libraries are not decided.",
+ "Discharge of every potentially panicking instruction on the per-line path by a local guard, decided on SSA: unchecked type assertions need a dominating comma-ok success on the same value/type (one listed exception), index/slice bounds need the range-loop index, a dominating len comparison (linear reasoning on len(x)+c) or an inter-procedural non-emptiness summary of key-path parameters, no division/panic/MustCompile of non-constants, no exit from inside the scan loop except returning a non-nil error, default split function. The scanner's token limit is not raised beyond 64 KiB (the only bound on recursion depth); no package-level state is both written and read on the line path (a failed line cannot poison later ones). Level 'other': panics inside libraries are not decided.",
  "Trusted: encoding/json, regexp, orderedmap, Tink do not panic on their inputs; pointers to parsed nodes and table nodes are non-nil by construction.",
  "panic-obligation enumeration over SSA with guard-fact discharge (dominance, small linear bound reasoning, call-site summaries)", "DESIGN.md section 3, C07")
 
@@ -61,29 +61,29 @@ prop("C18",
  "abstract interpretation over a finite presence domain, exhaustive enumeration of the 8192 abstract initial states, effect log ordering", "DESIGN.md section 3, C18")
 
 prop("C12",
- "Completeness, consistency and confinement of namespace pseudonymisation, decided on SSA + reconstructed tables: must-pass-through of the attr.ns rewrite on every successful return after attr is resolved; pairing of each command-document dispatch with the namespace rewriter on the same map under the flag only; verb list and store shape of the rewriter; Namespace typing of stage arguments and HashName stores in both Namespace arms; a single hashing site; every HashName call guarded (directly or through all callers) by the flag, a field-name parameter or the namespace-prefix test. Level 'other': whole-line absence of names is not decided.",
+ "Completeness, consistency and confinement of namespace pseudonymisation, decided on SSA + reconstructed tables: must-pass-through of the attr.ns rewrite on every successful return after attr is resolved; pairing of each command-document dispatch with the namespace rewriter on the same map under the flag only; verb list and store shape of the rewriter; Namespace typing of stage arguments and HashName stores in both Namespace arms; a single hashing site; every HashName call guarded (directly or through all callers) by the flag, a field-name parameter or the namespace-prefix test. attr.ns is rewritten only after every read of it, so other per-line decisions see the original namespace. Level 'other': whole-line absence of names is not decided.",
  "Trusted: go/ssa, orderedmap. Not decided: names in places the tool does not know (error messages), object forms of $out/$merge.into.",
  "CFG must-pass-through, guard atoms at call sites with inheritance through callers, table reconstruction", "DESIGN.md section 3, C12")
 prop("C14",
- "Value-independence and path integrity of selective mode, decided on SSA: the guard of the selective pass-through contains only flags, options and the path matcher on a key path without input values; every call site carrying a matcher-reaching key path passes the caller's own path, append(path,key) or a guarded empty-path fallback; the matcher ranges over the whole path. Level 'other': which names a regexp matches is value-level.",
+ "Value-independence and path integrity of selective mode, decided on SSA: the guard of the selective pass-through contains only flags, options and the path matcher on a key path without input values; every call site carrying a matcher-reaching key path passes the caller's own path, append(path,key) or a guarded empty-path fallback; the matcher ranges over the whole path. No package-level state is both written and read in the walkers (no memoised verdicts). Level 'other': which names a regexp matches is value-level.",
  "Trusted: regexp. One listed exception (sub-pipeline restart) in rules/exceptions.json.",
  "backward guard analysis of the pass-through return, inter-procedural parameter role propagation, call-site argument shape classification", "DESIGN.md section 3, C14")
 prop("C15",
- "Wiring of field-name redaction, decided on SSA: the per-line mode is true only via HasPrefix(attr.ns, p) over the whole configured list and reaches every command-walker call and the plan-summary guard; every walker-to-walker call threads the caller's own flag parameter (about 30 sites); map walkers rename non-operator keys with HashName(current key) under the flag; '$field' references are renamed; sort is dispatched; renames are confined to the mode; the plan-summary rewrite is reached on every path, uses HashName and never rewrites its own output. Level 'other': whole-line absence of names is not decided.",
+ "Wiring of field-name redaction, decided on SSA: the per-line mode is true only via HasPrefix(attr.ns, p) over the whole configured list and reaches every command-walker call and the plan-summary guard; every walker-to-walker call threads the caller's own flag parameter (about 30 sites); map walkers rename non-operator keys with HashName(current key) under the flag; '$field' references are renamed; sort is dispatched; renames are confined to the mode; the plan-summary rewrite is reached on every path, uses HashName and never rewrites its own output. The constant regular expressions that tokenize the plan summary are evaluated by the checker on probe summaries: every index key, dotted paths included, is one whole token; pseudonyms are inserted verbatim; the mode is decided on the original attr.ns. Level 'other': whole-line absence of names is not decided.",
  "Trusted: go/ssa, regexp.ReplaceAllStringFunc semantics.",
  "parameter-role propagation over the call graph, phi-edge guard analysis, loop-carried haystack detection", "DESIGN.md section 3, C15")
 
 prop("C05",
- "Validity of the placeholder constants and of the class->placeholder selection, decided on source constants and SSA: each placeholder constant is a member of its class (RFC 3339 date, 24 hex digits, valid base64, e-mail literal accepted by the classifier pattern and length bounds extracted from the source, number 0, boolean false - evaluated by the checker on the constants, no repository code runs); in the scalar step the guard atoms of every choke-point call select the placeholder of exactly that class ($date, $oid, $binary.base64, e-mail, generic, number, boolean), parent / grand-parent key are the last / second-to-last path elements; the replacement text is stored only by init and its setter fed by --replacement; $binary.subType is exempt. Level 'other': JSON rendering of an arbitrary replacement string is the library's.",
+ "Validity of the placeholder constants and of the class->placeholder selection, decided on source constants and SSA: each placeholder constant is a member of its class (RFC 3339 date, 24 hex digits, valid base64, e-mail literal accepted by the classifier pattern and length bounds extracted from the source, number 0, boolean false - evaluated by the checker on the constants, no repository code runs); in the scalar step the guard atoms of every choke-point call select the placeholder of exactly that class ($date, $oid, $binary.base64, e-mail, generic, number, boolean), parent / grand-parent key are the last / second-to-last path elements; the replacement text is stored only by init and its setter fed by --replacement; $binary.subType is exempt. Below each key-context test ($date / $oid / $binary.base64 with a string) every path yields that class's placeholder (no content test splits a class); the --replacement flag reaches the setter unmodified. Level 'other': JSON rendering of an arbitrary replacement string is the library's.",
  "Trusted: time.Parse/regexp/base64 in the checker agree with the Go runtime the tool is built with; encoding/json renders strings faithfully.",
  "constant evaluation of source constants with checker-side class predicates, guard atoms at the choke-point calls, store scan of the replacement global", "DESIGN.md section 3, C05")
 prop("C19",
- "Fixed-point structure of redaction, decided on source constants and SSA: every placeholder constant, fed back through the class tests extracted from the same source, selects the same arm and yields the same constant (e-mail literal accepted, default replacement not e-mail shaped and not '$'-prefixed, wrapper arms keyed on key and string type only, number/boolean placeholders keep their JSON kind, remote placeholder constant); every non-raw return of the scalar step is one of those constants, the replacement global or a choke-point result over them; parse followed by serialise keeps kinds, key order and number text (UseNumber before the first token, objects rebuilt in token order, Front-to-Next serialisation, containers never handed to encoding/json). Level 'other': byte-level canonicity of encoding/json on its own output is not decided.",
+ "Fixed-point structure of redaction, decided on source constants and SSA: every placeholder constant, fed back through the class tests extracted from the same source, selects the same arm and yields the same constant (e-mail literal accepted, default replacement not e-mail shaped and not '$'-prefixed, wrapper arms keyed on key and string type only, number/boolean placeholders keep their JSON kind, remote placeholder constant); every non-raw return of the scalar step is one of those constants, the replacement global or a choke-point result over them; parse followed by serialise keeps kinds, key order and number text (UseNumber before the first token, objects rebuilt in token order, Front-to-Next serialisation, containers never handed to encoding/json). Below each key-context test every path yields that class's placeholder; the serialiser's buffer has no other writer. Level 'other': byte-level canonicity of encoding/json on its own output is not decided.",
  "Trusted: encoding/json is canonical on its own output; a user-supplied e-mail-shaped replacement is excluded by the statement.",
  "constant evaluation with the extracted classifier, return-value classification of the scalar step, parser/serialiser agreement rules shared with C03/C04", "DESIGN.md section 3, C19")
 
 prop("C06",
- "Structural necessary conditions of the order-preserving, line-local map, decided on SSA: mod/ref of package-level state over the per-line call tree (nothing both written and read; tables never mutated, by receiver provenance), no goroutine/channel/sync, no time/randomness/environment/file/network source, no unsorted Go-map iteration (each zero-count detector re-validated against a positive control on every run); the scan loop hands the raw line only to the redactor and to comparisons with \"\", writes at most once per iteration exactly string(MarshalOrdered(RedactMongoLog(line))), every write-free iteration path (enumerated with edge facts) is guarded by the redactor's error, the serialiser's error or line==\"\", and the loop exits only with a non-nil error; every input channel reaches that one loop with the caller's own writer, wrapper success returns come only from it, the created output handle and os.Stdout are used only through the funnel, informational stdout text and a progress bar cannot coexist with stdout-bound records (CFG co-reachability / contradictory flag facts). Level 'other': line splitting (LF/CRLF/final newline) and gzip decoding are the library's.",
+ "Structural necessary conditions of the order-preserving, line-local map, decided on SSA: mod/ref of package-level state over the per-line call tree (nothing both written and read; tables never mutated, by receiver provenance), no goroutine/channel/sync, no time/randomness/environment/file/network source, no unsorted Go-map iteration (each zero-count detector re-validated against a positive control on every run); the scan loop hands the raw line only to the redactor and to comparisons with \"\", writes at most once per iteration exactly string(MarshalOrdered(RedactMongoLog(line))), every write-free iteration path (enumerated with edge facts) is guarded by the redactor's error, the serialiser's error or line==\"\", and the loop exits only with a non-nil error; every input channel reaches that one loop with the caller's own writer, wrapper success returns come only from it, the created output handle and os.Stdout are used only through the funnel, informational stdout text and a progress bar cannot coexist with stdout-bound records (CFG co-reachability / contradictory flag facts). A line yields a record only if it is exactly one complete JSON object (every token read error-checked, nothing may follow the object); a gzip reader is only handed to the scan loop and closed. Level 'other': line splitting (LF/CRLF/final newline) and gzip decoding are the library's.",
  "Trusted: bufio.ScanLines, compress/gzip, os.Create truncation. Not decided: byte equality across OS channels as observed bytes.",
  "inter-procedural mod/ref of globals, receiver provenance, bounded path enumeration of the scan loop with edge facts, who-may-use analysis of the output handle, CFG co-reachability", "DESIGN.md section 3, C06")
 
